@@ -18,6 +18,13 @@ reported as broken rather than guessed):
                   findings/D18_builddir_reentry.diff) -> builddir_guarded, field t_builddir_guard of every table
   conf-canvas.c   the synthetic last step added by config_canvas_after_parse
   interpolate.c   depth limit (through t_interp)
+  conf.c          config_parse_keyword and config_validate as normalised text (the no_repeat logic, the order "parse, append,
+                  then complain", the mandatory check); the sequence of CONFIG_* codes every value parser returns
+                  (-> parser_returns, compared in Conf/ConfPins.v with the outcomes the model's parsers have)
+  conf*.c, variable-value.c, lexer.c, conf-token.c, interpolate.c, if.c, robsd-config.c
+                  every function containing assert( / __builtin_trap( / abort( with the number of such sites
+                  (-> src_trap_sites, compared in Conf/ConfPins.v with the sites the model flags or argues dead: a new site
+                  breaks the tie); the guards that make two of them unreachable are pinned here
 """
 import os, re
 
@@ -81,6 +88,51 @@ STEPS_LIST_TAIL = ['steps = config_get_steps(config, 0, &s);', 'if (steps == NUL
                    'error = ACTION_ERROR_FATAL;', 'goto out;', '}',
                    'for (i = offset - 1; i < VECTOR_LENGTH(steps); i++) {', 'printf("%zu %s%s\\n",', 'i + 1,', 'steps[i].name,',
                    'steps[i].flags.parallel ? " parallel" : "");', '}']
+
+
+PARSE_KEYWORD = ['const struct grammar *gr;', 'struct variable_value val;', 'int no_repeat, rv;',
+                 'gr = config_find_grammar_for_keyword(cf, tk->tk_str);', 'if (gr == NULL) {',
+                 'lexer_error(cf->lx, tk->tk_lno, "unknown keyword \'%s\'",', 'tk->tk_str);', 'return CONFIG_FATAL;', '}',
+                 'no_repeat = (gr->gr_flags & REP) == 0 && config_present(cf, tk->tk_str);', 'rv = gr->gr_fn(cf, &val);',
+                 'if (rv == CONFIG_APPEND)', 'config_append(cf, tk->tk_str, &val);', 'if (no_repeat) {',
+                 'lexer_error(cf->lx, tk->tk_lno,', '"variable \'%s\' already defined", tk->tk_str);', 'return CONFIG_ERROR;', '}',
+                 'return rv;']
+VALIDATE = ['size_t i, n;', 'int error = 0;', 'n = VECTOR_LENGTH(cf->grammar);', 'for (i = 0; i < n; i++) {',
+            'const struct grammar *gr = cf->grammar[i];', 'const char *str = gr->gr_kw;',
+            'if ((gr->gr_flags & REQ) && !config_present(cf, str)) {', 'lexer_error(cf->lx, 0,',
+            '"mandatory variable \'%s\' missing", str);', 'error = 1;', '}', '}', 'return error;']
+TRAP_FILES = ['conf.c', 'conf-robsd.c', 'conf-robsd-cross.c', 'conf-robsd-ports.c', 'conf-robsd-regress.c', 'conf-canvas.c',
+              'conf-token.c', 'lexer.c', 'variable-value.c', 'interpolate.c', 'if.c', 'robsd-config.c']
+PARSER_FILE = {'config_parse_boolean': 'conf.c', 'config_parse_integer': 'conf.c', 'config_parse_string': 'conf.c',
+               'config_parse_list': 'conf.c', 'config_parse_glob': 'conf.c', 'config_parse_user': 'conf.c',
+               'config_parse_directory': 'conf.c', 'config_parse_canvas_directory': 'conf-canvas.c',
+               'config_parse_canvas_step': 'conf-canvas.c', 'config_parse_regress': 'conf-robsd-regress.c',
+               'config_parse_regress_env': 'conf-robsd-regress.c', 'config_parse_regress_timeout': 'conf-robsd-regress.c'}
+RCODES = {'CONFIG_APPEND': 'RC_append', 'CONFIG_NOP': 'RC_nop', 'CONFIG_ERROR': 'RC_error', 'CONFIG_FATAL': 'RC_fatal'}
+
+
+def all_functions(src):
+    """(name, body) of every function definition of a file (return type on its own line, as the project writes them)"""
+    return re.findall(r'^(\w+)\([^{;]*\)\n\{\n(.*?)^\}\n', src, re.S | re.M)
+
+
+def trap_sites(repo):
+    sites = []
+    for f in TRAP_FILES:
+        src = strip_comments(read(repo, f))
+        total = len(re.findall(r'\b(?:assert|__builtin_trap|abort)\s*\(', src))
+        found = 0
+        for name, body in all_functions(src):
+            n = len(re.findall(r'\b(?:assert|__builtin_trap|abort)\s*\(', body))
+            if n:
+                sites.append((f, name, n))
+                found += n
+        if found != total:
+            raise ValueError('%s: %d assert/trap/abort sites, only %d inside recognised function bodies' % (f, total, found))
+    hdr = strip_comments(read(repo, 'variable-value.h')) + strip_comments(read(repo, 'conf-priv.h')) + strip_comments(read(repo, 'conf.h'))
+    if re.search(r'\b(?:assert|__builtin_trap|abort)\s*\(', hdr):
+        raise ValueError('an assert/trap/abort site in a configuration header')
+    return sites
 
 
 def cb(s):
@@ -369,6 +421,50 @@ def generate(repo):
         raise ValueError('robsd-step.c: the listing loop of steps_list changed')
     if 'num = strtonum(optarg, 1, INT_MAX, &errstr);' not in b or 'unsigned int offset = 1;' not in b:
         raise ValueError('robsd-step.c: the offset option of steps_list changed')
+    # ---- keyword dispatch and the mandatory check, as text
+    if norm(func_body(cc, 'config_parse_keyword', 'conf.c')) != PARSE_KEYWORD:
+        raise ValueError('conf.c: config_parse_keyword is no longer the body the model transcribes (no_repeat computed before the parser runs, '
+                         'append on CONFIG_APPEND, then "already defined"): %r' % norm(func_body(cc, 'config_parse_keyword', 'conf.c')))
+    if norm(func_body(cc, 'config_validate', 'conf.c')) != VALIDATE:
+        raise ValueError('conf.c: config_validate changed: %r' % norm(func_body(cc, 'config_validate', 'conf.c')))
+    # ---- which CONFIG_* codes every value parser returns, in source order
+    rows = []
+    for fn, pf in PFUNS.items():
+        if fn == 'NULL':
+            continue
+        body = strip_comments(func_body(read(repo, PARSER_FILE[fn]), fn, PARSER_FILE[fn]))
+        rets = [r.strip() for r in re.findall(r'\breturn\s+([^;]+);', body)]
+        # `if (error) return error;` hands on the code of the parser just called (CONFIG_APPEND is 0)
+        bad = [r for r in rets if r not in RCODES and not (r in ('error', 'rv') and re.search(r'\b%s = config_parse_\w+\(' % r, body))]
+        if bad:
+            raise ValueError('%s: %s returns something other than a CONFIG_* code: %r' % (PARSER_FILE[fn], fn, bad))
+        rows.append('  (%s, [%s])' % (pf, '; '.join(RCODES.get(r, 'RC_pass') for r in rets)))
+    ph2 = read(repo, 'conf-priv.h')
+    if [re.findall(r'^#define %s\s+(\d+)$' % k, ph2, re.M) for k in ('CONFIG_APPEND', 'CONFIG_ERROR', 'CONFIG_NOP', 'CONFIG_FATAL')] != [['0'], ['1'], ['2'], ['3']]:
+        raise ValueError('conf-priv.h: the CONFIG_* codes changed (CONFIG_APPEND must be 0: `if (error) return error;`)')
+    out.append('(* the CONFIG_* codes each value parser returns, in source order; RC_pass = the code of the parser it called *)')
+    out.append('Inductive retcode := RC_append | RC_nop | RC_error | RC_fatal | RC_pass.')
+    out.append('Definition parser_returns : list (pfun * list retcode) := [\n' + ';\n'.join(rows) + '].\n')
+    # ---- assert / __builtin_trap / abort sites of the configuration sources
+    sites = trap_sites(repo)
+    out.append('(* every function of ' + ', '.join(TRAP_FILES) + ' that contains assert( / __builtin_trap( / abort(, with the number of sites *)')
+    out.append('Definition src_trap_sites : list (bytes * bytes * nat) := [\n' +
+               ';\n'.join('  (* %s %s *) (%s, %s, %d%%nat)' % (f, fn, cb(f), cb(fn), n) for f, fn, n in sites) + '].\n')
+    # the guards that make two of the sites unreachable, pinned as text
+    vh = strip_comments(read(repo, 'variable-value.h'))
+    if not re.search(r'is_variable_value_valid\(const struct variable_value \*val\)\s*\{\s*return val->type != INVALID;\s*\}', vh):
+        raise ValueError('variable-value.h: is_variable_value_valid is no longer "type != INVALID"')
+    lk = norm(func_body(cc, 'config_interpolate_lookup', 'conf.c'))
+    if 'if (va == NULL || !is_variable_value_valid(&va->va_val))' not in lk or lk[lk.index('if (va == NULL || !is_variable_value_valid(&va->va_val))') + 1] != 'return NULL;' \
+            or lk.index('if (va == NULL || !is_variable_value_valid(&va->va_val))') > lk.index('__builtin_trap();'):
+        raise ValueError('conf.c: config_interpolate_lookup no longer returns NULL for an INVALID value before its switch')
+    for f in TRAP_FILES:
+        for name, body in all_functions(strip_comments(read(repo, f))):
+            for v in set(re.findall(r'variable_value_append\(([^,]+),', body)):
+                first = body.index('variable_value_append(%s,' % v)
+                init = body.find('variable_value_init(%s, LIST);' % v)
+                if init < 0 or init > first:
+                    raise ValueError('%s: %s appends to %s without initialising it as a LIST first (assert of variable_value_append)' % (f, name, v))
     # ---- per mode
     for m in MODES:
         f = MODE_FILE[m]
